@@ -621,3 +621,66 @@ def obs_C11(g, out):
 
 
 P.OBS["C11"] = obs_C11
+
+
+# ---------------------------------------------------------------------------------------------
+# C04: radial grid lines of an orthogonal grid are integral curves of grad(psi)
+def region_lattice(g, i):
+    """(2nx+1, 2ny+1, 2) positions of all contour points of region i: corners / ylow / xlow / centre interleaved"""
+    c = g.reg
+    Rc, Rx, Ry, Rk = [c["r%d_Rxy_%s" % (i, l)] for l in ("centre", "xlow", "ylow", "corners")]
+    Zc, Zx, Zy, Zk = [c["r%d_Zxy_%s" % (i, l)] for l in ("centre", "xlow", "ylow", "corners")]
+    nx, ny = Rc.shape
+    Pm = np.full((2 * nx + 1, 2 * ny + 1, 2), np.nan)
+    Pm[0::2, 0::2, 0], Pm[0::2, 0::2, 1] = Rk, Zk
+    Pm[1::2, 0::2, 0], Pm[1::2, 0::2, 1] = Ry, Zy
+    Pm[0::2, 1::2, 0], Pm[0::2, 1::2, 1] = Rx, Zx
+    Pm[1::2, 1::2, 0], Pm[1::2, 1::2, 1] = Rc, Zc
+    return Pm
+
+
+def obs_C04(g, out):
+    """for every pair of radially adjacent contour points (same poloidal index): follow the integral curve of grad(psi) of the
+    equilibrium from the first to the psi of the second with an independent integrator (DOP853, rtol 1e-10) and record the distance
+    to the second; per cell the sine of the angle between the chord of the two x-faces and grad(psi) at the centre"""
+    from scipy.integrate import solve_ivp
+
+    eq = g.eq
+    t = g.extra["tables"]
+
+    def rhs(psi, x):
+        return [float(eq.f_R(x[0], x[1])), float(eq.f_Z(x[0], x[1]))]
+
+    regs = []
+    sinc = np.full((t["meshnx"], t["meshny"]), np.nan)
+    for r in sorted(g.extra["regions"], key=lambda r: r["id"]):
+        i = r["id"]
+        Pm = region_lattice(g, i)
+        nk, nj = Pm.shape[:2]
+        dev = np.full((nk - 1, nj), np.nan)
+        psiv = eq.psi(Pm[:, :, 0], Pm[:, :, 1])
+        for j in range(nj):
+            for k in range(nk - 1):
+                a, b = Pm[k, j], Pm[k + 1, j]
+                pa, pb = float(psiv[k, j]), float(psiv[k + 1, j])
+                if not (np.isfinite(pa) and np.isfinite(pb)) or pa == pb:
+                    continue
+                try:
+                    s = solve_ivp(rhs, (pa, pb), [a[0], a[1]], rtol=1e-10, atol=1e-12, method="DOP853")
+                    if s.status == 0:
+                        dev[k, j] = float(np.hypot(s.y[0, -1] - b[0], s.y[1, -1] - b[1]))
+                except Exception:  # noqa
+                    pass
+        regs.append({"id": i, "dev": Q(dev, 1e-8)})
+        x0, x1, y0, y1 = t["rects"][i]
+        for a in range(x1 - x0):
+            for b in range(y1 - y0):
+                p, q2, c = Pm[2 * a, 2 * b + 1], Pm[2 * a + 2, 2 * b + 1], Pm[2 * a + 1, 2 * b + 1]
+                gR, gZ = float(eq.f_R(c[0], c[1])), float(eq.f_Z(c[0], c[1]))
+                d = q2 - p
+                sinc[x0 + a, y0 + b] = abs(d[0] * gZ - d[1] * gR) / (np.hypot(*d) * np.hypot(gR, gZ))
+    out["c04"] = regs
+    out["sinc"] = Q(sinc, 1e-6)
+
+
+P.OBS["C04"] = obs_C04
